@@ -594,3 +594,53 @@ Definition type_params (i : impl) : list bound := filter b_is_param (i_bounds i)
 Definition no_trace_ok (i : impl) : bool :=
   self_static i || forallb b_static (type_params i) ||
   String.eqb (i_tycon i) "std::PhantomData".
+
+(* ------------------------------------------------------------------------------------ *)
+(** * The object-safe adapter ([DynCollect], [dyn_collect!])                             *)
+(* ------------------------------------------------------------------------------------ *)
+(** [src/collect.rs] lets a value be traced through a trait object: [<dyn DynCollect as Collect>::trace]
+    (and the impl generated by [dyn_collect!] for a user trait) calls [dyn_trace], whose blanket impl
+    runs the value's own [Collect::trace] with a FORWARDING tracer wrapped around the real one.  The
+    record below is what the translator reads from the source; [through_adapter] is what the real
+    tracer then sees for each event the value's own trace produces. *)
+Inductive fwd := FwdGc | FwdWeak | FwdNone | FwdUnknown (s : string).
+
+Record dyn_adapter := {
+  da_trait_gc_required : bool;     (* [Trace::trace_gc] has no default body *)
+  da_trait_weak_required : bool;   (* [Trace::trace_gc_weak] has no default body *)
+  da_dyn_collect_body : string;    (* body of [<dyn DynCollect as Collect>::trace], tracer renamed to cc *)
+  da_dyn_trace_body : string;      (* body of the blanket [dyn_trace] without its nested items; wrapper renamed to W *)
+  da_wrap_gc : fwd;                (* what the forwarding tracer does with a strong pointer *)
+  da_wrap_weak : fwd;              (* ... with a weak pointer *)
+  da_wrap_other : list string;     (* anything else the forwarding tracer overrides *)
+  da_macro_bodies : list string    (* body of [fn trace] in each rule of [__dyn_collect!] *)
+}.
+
+Definition fwd_event (f : fwd) (p : ptr) : list pointer :=
+  match f with
+  | FwdGc => [(p, Strong)]
+  | FwdWeak => [(p, Weak)]
+  | FwdNone | FwdUnknown _ => []
+  end.
+
+Definition through_adapter (a : dyn_adapter) (evs : list pointer) : list pointer :=
+  flat_map (fun e => match snd e with
+                     | Strong => fwd_event (da_wrap_gc a) (fst e)
+                     | Weak => fwd_event (da_wrap_weak a) (fst e)
+                     end) evs.
+
+Definition is_fwd_gc (f : fwd) : bool := match f with FwdGc => true | _ => false end.
+Definition is_fwd_weak (f : fwd) : bool := match f with FwdWeak => true | _ => false end.
+
+Definition dyn_adapter_ok (a : dyn_adapter) : bool :=
+  da_trait_gc_required a && da_trait_weak_required a
+  && String.eqb (da_dyn_collect_body a) "self.dyn_trace(cc)"
+  && String.eqb (da_dyn_trace_body a) "self.trace(&mut W(cc))"
+  && is_fwd_gc (da_wrap_gc a) && is_fwd_weak (da_wrap_weak a)
+  && match da_wrap_other a with [] => true | _ => false end
+  && match da_macro_bodies a with [] => false | _ => true end
+  && forallb (String.eqb "$crate::collect::DynCollect::dyn_trace(self,cc);") (da_macro_bodies a).
+
+(** Tracing a value of impl [i] through the adapter. *)
+Definition sem_dyn (T : tables) (td : stmt) (a : dyn_adapter) (i : impl) (c : content) : list pointer :=
+  through_adapter a (sem T td i c).
